@@ -27,6 +27,14 @@ def run():
             i += 1
     mod = importlib.import_module("harness.drivers.%s" % pid.lower())
     if replay:
+        # a replay runs under the seed and tier of the run that wrote the file (drivers that re-execute the whole family rely on it)
+        import json
+        try:
+            d = json.load(open(replay))
+            os.environ["VERIF_SEED"] = str(d.get("seed", os.environ.get("VERIF_SEED", "0")))
+            os.environ["VERIF_TIER"] = d.get("tier", os.environ.get("VERIF_TIER", "quick"))
+        except (OSError, ValueError):
+            pass
         main(pid, lambda: mod.replay(replay))
     else:
         main(pid, mod.main)
